@@ -223,4 +223,46 @@ def hasValue (code : Nat) (s : Sign) : Bool :=
   | .formula l => l.defined s
   | _ => false
 
+/-! ## options `-b <channel>` and the aardvark interface options (the tool's documented interface)
+
+`-t <addr>` "Set target address", `-b <channel>` "Set target channel": the request must reach the controller with
+slave address `addr` BEHIND the BMC, over the BMC's channel `channel`.  Over a LAN / system interface that is one
+Send Message (IPMI v2.0 §22.7: NetFn App 06h, command 34h, data byte 1 [3:0] = channel number, [7:6] = tracking;
+§6.13 / figure 6-?: the rest of the data is the encapsulated IPMB request, whose first byte is the responder's
+slave address) to the BMC. -/
+
+/-- where a request must arrive: the BMC itself (`channel = none`) or the controller `addr` behind channel `ch` -/
+structure Destination where
+  addr : Int
+  channel : Option Int
+  deriving Repr, DecidableEq
+
+/-- what `-t T` (default 20h) and `-b B` (optional) ask for, no explicit `-r` -/
+def destinationOf (t : Int) (b : Option Int) : Destination := ⟨t, b⟩
+
+/-- a path "console → … → target" as a list of hops (requester, responder, channel to bridge on; `none` = last hop):
+the destination it reaches is the responder of the LAST hop over the channel of the hop BEFORE it -/
+def reaches : List (Int × Int × Option Int) → Option Destination
+  | [] => none
+  | [(_, rs, _)] => some ⟨rs, none⟩
+  | [(_, _, ch), (_, rs, _)] => some ⟨rs, ch⟩
+  | _ :: rest => reaches rest
+
+/-- Send Message request data for channel `ch` with tracking (01b) around an encapsulated request -/
+def sendMessageData (ch : Nat) (inner : List Nat) : List Nat := (0x40 ||| (ch % 16)) :: inner
+
+/-- aardvark interface options: `pullups=<on|off>` "Enable/disable pullups", `power=<on|off>` "Enable/disable target
+power", `fastmode=<on|off>`: every option GIVEN is written to the adapter with its value; an option not given is
+not written (fast mode: the bit rate, 400 kHz on / 100 kHz off). -/
+inductive AdapterSetting where
+  | pullups (on : Bool)
+  | power (on : Bool)
+  | bitrate (khz : Nat)
+  deriving Repr, DecidableEq
+
+def adapterSettings (pullups power fastmode : Option Bool) : List AdapterSetting :=
+  (match pullups with | some v => [.pullups v] | none => []) ++
+  (match power with | some v => [.power v] | none => []) ++
+  (match fastmode with | some v => [.bitrate (if v then 400 else 100)] | none => [])
+
 end PyIpmi.Spec.Cli
